@@ -331,6 +331,14 @@ class ZFn:
                     ns = tmp
                 # a crate helper that only returns when two of its usize arguments obey the zero rule
                 asum = s.summ.get(("asserts", fn.get("resolved") or fn.get("path")))
+                if not asum and t.get("target") is not None and t.get("dest") and not t["dest"]["proj"]:
+                    # a validator returning Result, propagated with `?`: the very next thing done with its result is Try::branch,
+                    # whose Break arm only returns - what continues has passed the validation
+                    oks = s.summ.get(("ok-asserts", fn.get("resolved") or fn.get("path")))
+                    if oks:
+                        nt = b["blocks"][t["target"]]["term"]
+                        if nt and nt.get("k") == "call" and ((nt["func"].get("fn") or {}).get("name") == "branch") and any(a_.get("k") in ("copy", "move") and a_["p"]["local"] == t["dest"]["local"] for a_ in nt["args"]):
+                            asum = oks
                 if asum:
                     for (ia, ib) in asum:
                         if ia < len(t["args"]) and ib < len(t["args"]):
@@ -767,10 +775,24 @@ def assert_summaries(f):
             if si == "term" and node and node.get("k") == "return":
                 for V in states:
                     rets.setdefault("r", set()).add(tuple(V[k] for k in keys))
+            # a validator that answers with a Result: the valuations under which it builds its `Ok(..)`
+            if si != "term" and node.get("k") == "assign" and node["p"]["local"] == 0 and not node["p"]["proj"] and node["rv"]["k"] == "agg" \
+                    and str(node["rv"].get("adt", "")).endswith("result::Result") and node["rv"].get("variant") == "Ok":
+                for V in states:
+                    rets.setdefault("ok", set()).add(tuple(V[k] for k in keys))
         try:
             Zf.run(list(keys), [], sinks)
         except RecursionError:
             continue
+        seen_ok = rets.get("ok", set())
+        if seen_ok and "Result<" in str(b.locals[0]):
+            good_ok = []
+            for x in range(len(us)):
+                for y in range(x + 1, len(us)):
+                    if all((v[x] == "Z") == (v[y] == "Z") for v in seen_ok):
+                        good_ok.append((us[x] - 1, us[y] - 1))
+            if good_ok:
+                out[("ok-asserts", b.id)] = good_ok
         seen = rets.get("r", set())
         if not seen:
             continue
